@@ -37,6 +37,7 @@ def bounds(tier):
 
 
 def prefork():
+    A.korobov_generator(70001, 3)
     for d in (2, 3, 4, 5, 6):
         for n in (31, 301, 1001):
             A.korobov_generator(n, d)
@@ -51,7 +52,9 @@ def cases(tier, seed):
             out.append(('zoo', t, cfg, seed))
         for name in tables.structural_tables():
             out.append(('struct', name, cfg, seed))
-    out.sort(key=lambda c: c[2] != 'default')
+    for cfg in ('gaussian-class', 'uniform-name'):
+        out.append(('big', 70001, cfg, seed))
+    out.sort(key=lambda c: (c[0] != 'big', c[2] != 'default'))
     return out
 
 
@@ -87,6 +90,10 @@ def run_case(case):
     if kind == 'zoo':
         df, info = tables.gaussian_copula_table(t, A.shift_from_seed(seed))
         tname = str(t)
+    elif kind == 'big':
+        df = tables.big_table(t)
+        tname = f'big-{t}-rows'
+        r.hit('big-table')
     else:
         df = tables.structural_tables()[t]
         tname = t
@@ -199,3 +206,4 @@ def run_case(case):
 def finish(agg, tier):
     for k in ('ridge', 'no-ridge', 'constant-column', 'conditional-usability'):
         engine.require(agg['hits'].get(k, 0) >= 10, f'{k} under-explored')
+    engine.require(agg['hits'].get('big-table', 0) >= 2, 'long table missing')
